@@ -28,6 +28,7 @@ stubs.install_env(st)                          # silent logger, virtual time (ti
 st.threading = fr.FakeThreading                # the tracker thread is never started
 FS = memfs.MemFS()
 st.open = FS.open                              # `open` inside store.py -> in-memory files
+st.os = FS.os_shim(st.os)                      # os.replace / os.remove inside store.py -> the same in-memory files
 
 PROPERTY = "C20"
 ASSUMPTIONS = [
@@ -798,6 +799,60 @@ def json_truncated_file(which: int, cut: int) -> str:
         if n >= len(text):
             return starts_usable(text, doc)
         return starts_usable(text[:n], None)
+
+
+CRASH_OPS = ["add a second definition", "replace the stored definition", "delete the stored definition"]
+_BASE = {KEYS[0]: FULL[1][KEYS[0]]}
+_AFTER = [dict(_BASE, **{KEYS[1]: {"definition": {"StartAt": "T", "States": {"T": {"Type": "Succeed"}}}, "name": "n"}}),
+          {KEYS[0]: {"definition": {"StartAt": "U", "States": {"U": {"Type": "Succeed"}}}, "name": "m2"}}, {}]
+CRASH_MAX = max(len(_json.dumps(d)) for d in _AFTER) + 1
+
+
+def crash_during_write(op, cut, at_rename):
+    """A definition is stored (write completed); the engine then dies while the NEXT write is in progress, after `cut`
+    characters of it have reached the file system (or, at_rename, just before a rename that publishes it).  The
+    restarted store must hold the state before or after the interrupted operation - what was written earlier must
+    still be there."""
+    fresh()
+    s = st.JSONStore(FILE)
+    s[KEYS[0]] = copy.deepcopy(_BASE[KEYS[0]])
+    before = copy.deepcopy(_BASE); after = copy.deepcopy(_AFTER[op])
+    FS.crash_after = cut
+    FS.crash_at_replace = at_rename
+    crashed = False
+    try:
+        if op == 0: s[KEYS[1]] = copy.deepcopy(after[KEYS[1]])
+        elif op == 1: s[KEYS[0]] = copy.deepcopy(after[KEYS[0]])
+        else: del s[KEYS[0]]
+    except memfs.Crash:
+        crashed = True
+    FS.crash_after = None; FS.crash_at_replace = False
+    try:
+        r = st.JSONStore(FILE)
+        have = {k: r[k] for k in r}
+    except Exception as e:
+        return "restart raised %s: %s" % (type(e).__name__, e)
+    if not crashed:
+        return "ok" if have == after else "after the completed operation the restarted store holds %r" % (have,)
+    if have != before and have != after:
+        return "C20 the engine died %d characters into the write of '%s': the restarted store holds %r, neither the state before (%r) nor after the operation" % (cut, CRASH_OPS[op], have, sorted(before))
+    return "ok"
+
+
+@condition(timeout={"quick": 120, "thorough": 600},
+           functions=["JSONStore._update_store (an interrupted write)", "JSONStore.__init__ (restart)"],
+           outside=["torn writes below the granularity of a character; a crash of the file system itself (the rename is taken as atomic, as POSIX rename and os.replace are)"],
+           note="crash point = number of characters of the next write that reached the file system (symbolic), or the moment before the publishing rename")
+def json_crash_during_write(op: int, cut: int, at_rename: bool) -> str:
+    """
+    requires: 0 <= op < 3 and 0 <= cut <= CRASH_MAX
+    ensures: _ == "ok"
+    """
+    o = pick([0, 1, 2], op)
+    n = pick(list(range(CRASH_MAX + 1)), cut)
+    ar = True if at_rename else False
+    with NoTracing():
+        return crash_during_write(o, n, ar)
 
 
 # ---------------------------------------------------------------------------
